@@ -37,3 +37,83 @@ package dragonboat
 //@ modifies held(p.mu), p.pending, chan(old(p.pending).CompletedC), old(p.pending).readyToRelease.val
 //@ ensures old(p.pending) != nil && old(p.pending.key) != key ==> p.pending == old(p.pending) && len(p.pending.CompletedC) == old(len(p.pending.CompletedC))
 //@ ensures old(p.pending) != nil && old(p.pending.key) == key ==> p.pending == nil && len(old(p.pending).CompletedC) == old(len(p.pending.CompletedC)) + 1
+
+// ---------------------------------------------------------------- persist before send (C04)
+// Every message leaves a replica through node.sendRaftMessage; it is called from exactly three
+// places (sendEnterQuiesceMessages, sendReplicateMessages, sendMessages), all under contract.
+// From the property: a vote, a vote request, a replication acknowledgement or a heartbeat
+// response never leaves before the update it belongs to has been persisted.
+//@ func fieldfunc.node.sendRaftMessage [C04]
+//@ requires arg0.Type == pb.RequestVote || arg0.Type == pb.RequestVoteResp || arg0.Type == pb.ReplicateResp || arg0.Type == pb.HeartbeatResp ==> raftio.gSaved
+
+//@ func isFreeOrderMessage [C04]
+//@ ensures result == (m.Type == pb.Replicate || m.Type == pb.Ping)
+
+// may run before the save: sends only Replicate / Ping
+//@ func (n *node) sendReplicateMessages [C04]
+//@ noframe
+//@ nobounds
+
+// runs after the save only
+//@ func (n *node) sendMessages [C04]
+//@ noframe
+//@ nobounds
+//@ requires raftio.gSaved
+
+//@ func (n *node) sendEnterQuiesceMessages [C04]
+//@ noframe
+//@ nobounds
+
+//@ func (n *node) processRaftUpdate [C04]
+//@ noframe
+//@ nobounds
+//@ requires raftio.gSaved
+
+// the update is acknowledged to the raft core (which then treats its entries as persisted) only
+// after the save
+//@ func (n *node) commitRaftUpdate [C04]
+//@ trusted three-line body (raftMu.Lock; Peer.Commit; Unlock); the typestate requirement is checked at its call site
+//@ requires raftio.gSaved
+
+// the step pipeline: collect updates, send Replicate early, persist, then send the rest and commit
+//@ func (e *engine) processSteps [C04]
+//@ noframe
+//@ nobounds
+//@ requires e.logdb != nil && !raftio.gSaved
+//@ modifies raftio.gSaved, raftio.gSavedPtr, raftio.gSavedLen
+//@ loop 1 invariant !raftio.gSaved
+//@ loop 2 invariant !raftio.gSaved
+//@ loop 3 invariant !raftio.gSaved
+//@ loop 4 invariant raftio.gSaved && raftio.gSavedPtr == ptr(nodeUpdates) && raftio.gSavedLen == len(nodeUpdates)
+
+// callees of the pipeline that send nothing (every send goes through the three functions above)
+//@ func (n *node) stepNode [C04]
+//@ trusted steps the raft core under raftMu and returns its update; sends at most Quiesce messages (sendEnterQuiesceMessages is under contract)
+//@ func (n *node) stopped [C04]
+//@ trusted reads the stop channel
+//@ func (e *engine) applySnapshotAndUpdate [C04]
+//@ trusted queues snapshot/apply tasks; sends no raft message
+//@ func (e *engine) onSnapshotSaved [C04]
+//@ trusted removes snapshot flag files; sends no raft message
+//@ func (e *engine) processMoreCommittedEntries [C04]
+//@ trusted marks the shard step-ready; sends no raft message
+//@ func (n *node) processReadyToRead [C04]
+//@ trusted completes local read requests; sends no raft message
+//@ func (n *node) processDroppedEntries [C04]
+//@ trusted notifies dropped proposals; sends no raft message
+//@ func (n *node) processDroppedReadIndexes [C04]
+//@ trusted notifies dropped reads; sends no raft message
+//@ func (n *node) processLogQuery [C04]
+//@ trusted completes a log query; sends no raft message
+//@ func (n *node) processLeaderUpdate [C04]
+//@ trusted publishes the leader info; sends no raft message
+//@ func (n *node) removeLog [C04]
+//@ trusted log compaction bookkeeping; sends no raft message
+//@ func (n *node) runSyncTask [C04]
+//@ trusted schedules the on-disk state machine sync; sends no raft message
+//@ func (n *node) saveSnapshotRequired [C04]
+//@ trusted pure decision
+//@ func (n *node) pushTakeSnapshotRequest [C04]
+//@ trusted queues a snapshot task; sends no raft message
+//@ func resetNodeUpdate [C04]
+//@ trusted clears slices of the already processed updates
